@@ -9,6 +9,7 @@ import JominiModel.Props.C15
 import JominiModel.Props.C16
 import JominiModel.Proofs.TextReaderTotal
 import JominiModel.Proofs.BinDeTotal
+import JominiModel.Proofs.TextDeTotal
 /-
 C05 — No input can crash, hang or escape memory bounds in any entry point.
 
